@@ -167,17 +167,20 @@ class FormulaParser(Parser):
                         | expseqcomma SEMICOLON expseqcomma
                         | expseqbackslash SEMICOLON expseqbackslash
         """
+        # decide by the kind of grammar symbol, not by its value: a text argument may
+        # itself be ";" (or "," or "\\")
+        kinds = [symbol.type for symbol in p.slice]
         if len(p) == 2:
             p[0] = [p[1]]
         elif len(p) == 3:
-            if p[1] == ';' and p[2] == ';':
+            if kinds[1] == 'SEMICOLON' and kinds[2] == 'SEMICOLON':
                 p[0] = [None, None, None]
-            elif p[1] == ';':
+            elif kinds[1] == 'SEMICOLON':
                 p[0] = [None] + p[2]
             else:
                 p[0] = p[1] + [None]
-        elif p[2] == ';':
-            if p[3] == ';':
+        elif kinds[2] == 'SEMICOLON':
+            if kinds[3] == 'SEMICOLON':
                 p[0] = p[1] + [None, p[4]]
             else:
                 if str(p.slice[1]) in ('expseqcomma', 'expseqbackslash'):
@@ -194,18 +197,19 @@ class FormulaParser(Parser):
                     | expseqcomma COMMA expression
                     | expseqcomma COMMA COMMA expression
         """
+        kinds = [symbol.type for symbol in p.slice]  # see p_expseq_semicolon
         if len(p) == 2:  # expression
             p[0] = [p[1]]
         elif len(p) == 3:
-            if p[1] == ',' and p[2] == ',':
+            if kinds[1] == 'COMMA' and kinds[2] == 'COMMA':
                 p[0] = [None, None, None]
-            elif p[1] == ',':
+            elif kinds[1] == 'COMMA':
                 p[0] = [None] + p[2]
             else:
                 p[0] = p[1] + [None]
-        elif p[2] == ',':
+        elif kinds[2] == 'COMMA':
             # expseqcomma COMMA COMMA expression
-            if p[3] == ',':  # e.g. an empty function argument
+            if kinds[3] == 'COMMA':  # e.g. an empty function argument
                 p[0] = p[1] + [None, p[4]]
             else:
                 p[0] = p[1] + [p[3]]
@@ -219,17 +223,18 @@ class FormulaParser(Parser):
                         | expseqbackslash BACKSLASH expression
                         | expseqbackslash BACKSLASH BACKSLASH expression
         """
+        kinds = [symbol.type for symbol in p.slice]  # see p_expseq_semicolon
         if len(p) == 2:
             p[0] = [p[1]]
         elif len(p) == 3:
-            if p[1] == '\\' and p[2] == '\\':
+            if kinds[1] == 'BACKSLASH' and kinds[2] == 'BACKSLASH':
                 p[0] = [None, None, None]
-            elif p[1] == '\\':
+            elif kinds[1] == 'BACKSLASH':
                 p[0] = [None] + p[2]
             else:
                 p[0] = p[1] + [None]
-        elif p[2] == '\\':
-            if p[3] == '\\':
+        elif kinds[2] == 'BACKSLASH':
+            if kinds[3] == 'BACKSLASH':
                 p[0] = p[1] + [None, p[4]]
             else:
                 p[0] = p[1] + [p[3]]
